@@ -54,7 +54,8 @@ open GoSup.Planner GoSup.Cluster in
 count after every update -/
 def clusterseq (i : Info) (t : List Ev) : String :=
   if i.hung || knownClash i t then "agree" else
-  let static (id : String) : Bool := i.ff.contains id || i.nr.contains id
+  let fateOf (fo : List String) (id : String) : Fate :=
+    if i.ff.contains id || fo.contains id then .factoryErr else if i.nr.contains id then .notReady else .ok
   -- every map is delivered twice by the harness; an id whose factory fails once is dropped by the first
   -- delivery that wants to start it and started by the next one
   let rec go (k : Nat) (cur : Entries) (next : Nat) (foLeft : List String) (maps : List (List (String × Option Nat))) : String :=
@@ -64,10 +65,10 @@ def clusterseq (i : Info) (t : List Ev) : String :=
       match t.find? (fun e => match e with | .count k' _ _ => k' == k | _ => false) with
       | some (.count _ cnt _) =>
         let des := m.filterMap fun (id, v) => v.map fun c => (id, c)
-        let r1 := applyUpdate (fun id => static id || foLeft.contains id) cur des next
+        let r1 := applyUpdate (fateOf foLeft) cur des next
         let failed := r1.effects.filterMap fun e => match e with | .dropped id => some id | _ => none
         let foLeft' := foLeft.filter fun id => !failed.contains id
-        let r := applyUpdate (fun id => static id || foLeft'.contains id) r1.entries des r1.next
+        let r := applyUpdate (fateOf foLeft') r1.entries des r1.next
         let failed2 := r.effects.filterMap fun e => match e with | .dropped id => some id | _ => none
         let model := sortPairs ((running r.entries).map fun (id, c, _) => (id, c))
         let act := sortPairs ((alive (prefixTo t k)).map fun (id, c, _) => (id, c))
